@@ -1,2 +1,6 @@
+pub mod lists;
+pub mod map;
+pub mod merkle;
 pub mod mvreg;
 pub mod orswot;
+pub mod simple;
